@@ -9,6 +9,8 @@ def _(dataset):
              2 * dataset.attrs["offset_row_col"] <= dataset["validity_mask"].data.shape[1])
     assigns(dataset)
     raises_never()
+    option(returns_expr='dataset["validity_mask"]')   # `return dataset["validity_mask"]`: checked by ensures("returns_mask") below
+    ensures("returns_mask", result is dataset["validity_mask"])
     ensures("border", all(dataset["validity_mask"].data[r, c] == 1
                           for r in range(dataset["validity_mask"].data.shape[0])
                           for c in range(dataset["validity_mask"].data.shape[1])
